@@ -543,6 +543,11 @@ def run_property(pid, mod, tier, seed, replay=None):
             if k["id"] not in seen:
                 seen.add(k["id"])
                 print("KNOWN-FINDING: property=%s %s" % (pid, k["what"]))
+        for k in (ctx.tie or {}).get("kernels", []):
+            if k["status"] != "proved" and not (k["status"] == "unproved" and k.get("strict", True)):
+                # not a verdict: this tie is not available on the current source; the correspondence decides
+                print("NOTE property=%s source-translation tie not established for kernel %s (%s): %s"
+                      % (pid, k["kernel"], k["status"], " ".join(str(k.get("detail", "")).split())[:200]))
         broken = []
         if not ctx.coq["ok"]:
             broken.append({"kind": "proof", "theorem_file": "coq/props/%s.v" % pid,
